@@ -114,7 +114,12 @@ def install(env, mods, pid=0, table=None, prf_stub=True, rand_stub=True, keytag=
 
             def _reciprocal(cls, a, _orig=orig_rec):
                 if isinstance(a, symx.SymInt):
-                    return symx._sym_invert(a, cls.modulus)
+                    import z3
+                    c = z3.simplify(a.t)
+                    if z3.is_int_value(c):             # a constant in symbolic clothing (e.g. the result of a stub on forked values)
+                        a = c.as_long()
+                    else:
+                        return symx._sym_invert(a, cls.modulus)
                 v = _orig(cls, a)
                 return symx.InvConst(v, a % cls.modulus, cls.modulus)
             ff.PrimeFieldElement._reciprocal = classmethod(_reciprocal)
